@@ -9,7 +9,8 @@ structures with SYMBOLIC leaves, for every feasible path:
   history     the call is repeated (a) on a fresh interpreter and (b) on an interpreter that has a HISTORY behind it — other
               functions, the same function under other contexts, transformed copies of the same function (simplify, unroll,
               monomorphize) evaluated first, in the orders listed — and z3 decides that both return the same value.
-Concurrency (thread schedules) has no symbolic encoding here and stays outside the claim.
+  schedules   two concurrent public calls on one interpreter with the interleaving a symbolic bit-vector (harness/c18_sched.py):
+              preemption at every access to shared interpreter state and between rounded operations, bounded number of preemptions.
 """
 PROPERTY = 'C18'
 LEVEL = 'model_checking'
@@ -106,11 +107,15 @@ def tasks(tier, seed):
             if sum(c[1] for c in shape if c[0] == 'list') > 3:
                 continue
             ts.append(dict(kind='pure', name='pure/%s/%s' % (p['name'], '-'.join(str(c[-1]) if len(c) > 1 else 'r' for c in shape)), prog=p['name'], shape=[list(c) for c in shape], cost=2))
+    import sys
+    from . import c18_sched
+    ts += c18_sched.sched_tasks(sys.modules[__name__], tier)
     return ts
 
 
 def required_witnesses(tier):
-    return ['returns', 'argument-written-by-callee', 'result-contains-list', 'history-replayed', 'transformed-copy-in-history', 'same-named-function-in-history']
+    return ['returns', 'argument-written-by-callee', 'result-contains-list', 'history-replayed', 'transformed-copy-in-history', 'same-named-function-in-history',
+            'preempted', 'preempted-twice', 'preempted-between-operations', 'preempted-at-cache-access']
 
 
 CONTEXTS = {'mps4': 'fp.MPSFloatContext(4, -3)', 'mp2up': 'fp.MPFloatContext(2, fp.RM.RTP)', 'none': None}
@@ -190,6 +195,10 @@ def run_task(task):
     from pysym import shims
     import fpy2 as fp
     from fpy2.interpret import byte, interpreter as interp_mod
+    if task.get('kind') == 'sched':
+        import sys
+        from . import c18_sched
+        return c18_sched.run_sched(sys.modules[__name__], task)
     tier = task.get('tier', 'quick'); t = tv.TIER[tier]
     p, f, ns = load(task['prog'])
     shape = [tuple(c) for c in task['shape']]
@@ -270,14 +279,18 @@ def _norm(v):
 def describe(tier):
     R = '/repo/fpy2/'
     return dict(
-        functions=['function.Function.__call__', 'interpret.interpreter (default interpreter, func_cache, _func_ctx)', 'interpret.value.to_value / from_value (boundary conversion)', 'interpret.byte.BytecodeInterpreter.eval(convert=True) and the compiled functions',
+        functions=['harness/c18_sched.py: two real threads under a hand-off scheduler, preemption decided by a symbolic schedule', 'function.Function.__call__', 'interpret.interpreter (default interpreter, func_cache, _func_ctx)', 'interpret.value.to_value / from_value (boundary conversion)', 'interpret.byte.BytecodeInterpreter.eval(convert=True) and the compiled functions',
                    'strategies.simplify / unroll_for / monomorphize (to build the transformed copies of the history)'],
         files=[R + 'interpret/byte.py', R + 'interpret/interpreter.py', R + 'interpret/value.py', R + 'function.py', R + 'number/globals.py'],
         bounds=dict(programs=len(_programs(tier)), caller_contexts=list(CONTEXTS.values()), history='same function under 2 other contexts, up to 2 other functions of the program, same-named entry functions of other corpus programs with the same argument kinds, 3 transformed copies; one order',
-                    argument_significand_bits=tv.TIER[tier]['CW'], list_lengths='0..3'),
-        outside=['concurrent evaluation (thread schedules): not encoded', 'histories other than the listed one', 'MPFR / gmpy2 global state (the operations are the validated summaries here)', 'programs outside the corpus'],
+                    argument_significand_bits=tv.TIER[tier]['CW'], list_lengths='0..3',
+                    schedules=dict(threads=2, preemptions_at_most=__import__('harness.c18_sched', fromlist=['x']).PREEMPTIONS[tier], schedule_bits=120,
+                                   yield_points='Function.__call__, BytecodeInterpreter.eval, every func_cache access, _func_ctx, get_default_interpreter, _call_fpy, to_value / from_value at the boundary, every rounded operation' + ('; every Python-level call inside fpy2/interpret/*.py and fpy2/function.py' if tier == 'thorough' else ''),
+                                   partners='the same function under another context; a same-named entry function of another program; simplify(f)', context_pairs=__import__('harness.c18_sched', fromlist=['x']).PAIR_CONTEXTS,
+                                   programs=list(__import__('harness.c18_sched', fromlist=['x']).SCHED_PROGRAMS))),
+        outside=['preemption between two yield points (code there is assumed to touch only objects owned by the running evaluation)', 'more than two threads, more preemptions than the bound', 'the real MPFR calls under concurrency (gmpy2 contexts are thread-local in C; the operations are summaries here; the replay uses the real ones)', 'histories other than the listed one', 'MPFR / gmpy2 global state (the operations are the validated summaries here)', 'programs outside the corpus'],
         stubs=['ops.add/sub/mul/fma/neg/fabs/round -> validated summaries', 'int / Fraction proxies, number formatting'],
-        assumptions=['a deterministic context (no stochastic rounding)'],
+        assumptions=['a deterministic context (no stochastic rounding)', 'CPython switches threads only between bytecodes; state shared between evaluations is reached only through the listed yield points'],
         rule='one case = one feasible path of a corpus program called through Function.__call__ on symbolic argument structures, under each caller context, fresh and after the history',
         explanation='bounded model checking of the public call boundary: argument isolation, result freshness and history independence per feasible path',
     )
